@@ -33,6 +33,9 @@ def run(chk):
         "reached the channel; FIFO order and the identity of every frame the transport received are checked",
         "delivery is asserted for reading clients under pacing (each batch <= the buffer is emitted after the readers caught up), "
         "with a 5 s deadline per batch",
+        "wake-up stage: a quarter of the pairs use a controlled schedule (the transport is held at the hook after its receive loop until "
+        "the second emission has been pushed), the rest run freely 0-80 us apart; every window of emission pairs is screened by the harness (10 s delivery deadline per pair); only the first "
+        "window and windows that missed a deadline are written out and validated by TLC",
     ]
     mcs = [("two_clients", dict(NEmit=2)), ("unbounded", dict(Unbounded="TRUE", NEmit=2, Clients="{2}", NMeta=0)),
            ("one_client_3", dict(Clients="{2}", NEmit=3, Limit=1))]
@@ -90,6 +93,19 @@ def run(chk):
         chk.notes["record_%s_%d" % (buf, fat)] = s1
         if fat and s1.get("would_block_writes", 0) == 0:
             chk.log("note: the slow-client scenario did not reach WouldBlock in this run")
+    # wake-up stress: many windows of closely spaced emission pairs, each screened by its own 10 s delivery deadline; the
+    # first window and every window that missed the deadline are validated by TLC (a lost wake-up leaves the emission in
+    # the model's channel at `final`)
+    tr = chk.path("wake.ndjson")
+    nwin, ntr = (150, 1000) if thorough else (12, 500)
+    rc, out, s1 = vlib.harness("c11", ["wake", "--runs", nwin, "--trials", ntr, "--out", tr], env=env, timeout=1800)
+    if rc != 0 or not s1:
+        chk.tool_error("c11 wake failed", out)
+    tcfg = cfg("trace_wake", spec="TraceSpec", inv=TINV, post=True, Clients="{2,3,4,5,6,7}", NMeta=2, NEmit=max(10, s1["max_id"]), Limit=1024)
+    total += vlib.validate_concat(chk, SPEC, "TraceTcpExporter", tcfg, tr, "wake-up stress windows", timeout=1800)
+    chk.notes["wake_stress"] = s1
+    if s1.get("controlled_trials_held", 0) == 0:
+        chk.tool_error("wake-up stage: the controlled schedule (emission while the transport is held after its receive loop) never happened", out)
     chk.cov["traces_validated_against_impl"] = total
     with open(chk.path("rec_8_0.ndjson")) as f:
         chk.cov["samples"].append({"source": "recorded exporter run", "events": [json.loads(next(f)) for _ in range(25)]})
